@@ -308,6 +308,16 @@ def m_into_iter(I, fr, fn, a):
     if isinstance(v, Agg) and v.name.endswith('Range') and not isinstance(v, IterObj): return v      # Range is its own iterator
     if isinstance(v, IterObj): return v
     return IterObj(as_items(I, v))
+def m_size_hint(I, fr, fn, a):
+    """Iterator::size_hint of an arbitrary iterator: the lower bound is anything between 0 and the number of items left (adapters such
+    as filter / flat_map / take_while report 0), the upper bound is None or at least that number: the lower bound forks"""
+    it = a[0]
+    while isinstance(it, Ref): it = I.deref(it)
+    if not isinstance(it, IterObj): return NotImplemented
+    n = len(it.items) - it.pos
+    lo = n
+    if n > 0 and I.ctx.decide(z3.Bool(I.ctx.fresh('size_hint_lower_bound_is_zero'))): lo = 0
+    return Agg('tuple', [lo, some(n)])
 def m_iter(I, fr, fn, a): return IterObj(as_items(I, a[0]))
 def m_iter_next(I, fr, fn, a):
     it = D(I, a[0])
@@ -712,7 +722,7 @@ STD_FNS = [
     (r'^<.* as core::iter::Iterator>::rev$', m_iter_rev),
     (r'^<.* as core::iter::Iterator>::map::', m_iter_map),
     (r'^<.* as core::iter::Iterator>::zip::', m_iter_zip),
-    (r'^<.* as core::iter::Iterator>::fold::', m_iter_fold),
+    (r'^<.* as core::iter::Iterator>::fold::', m_iter_fold), (r'^<.* as core::iter::Iterator>::size_hint$', m_size_hint),
     (r'^<.* as core::iter::Iterator>::collect::', m_iter_collect),
     (r'^<.* as core::iter::Iterator>::copied::', m_iter_copied),
     (r'^<.* as core::iter::Iterator>::cloned::', m_iter_copied),
